@@ -47,7 +47,9 @@ pub struct ParentReadyTracker { _p: () }
 #[verifier::reject_recursive_types(T)]
 pub struct Sender<T> { _p: std::marker::PhantomData<T> }
 
-// the state a slot gets on first use (SlotState::new): ASSUMED empty and well formed
+// the state a slot gets on first use: the value SlotState::new returns, named by an uninterpreted function; what the axiom says
+// of it is the postcondition PROVED on the real SlotState::new / SlotVotes::new plus theorem_fresh_slot_state_is_well_formed (unit
+// slot_state); copied here by hand
 pub uninterp spec fn spec_fresh_slot_state(slot: Slot, ei: Arc<ValidatorEpochInfo>) -> SlotState;
 #[verifier::external_body]
 pub broadcast proof fn axiom_fresh_slot_state(slot: Slot, ei: Arc<ValidatorEpochInfo>)
